@@ -199,6 +199,10 @@ def build_value(r):
     if t == "poscons":
         return fdtdx.objects.object.PositionConstraint(object=r[1], other_object=r[2], axes=(0, 2), object_positions=(0.0, -1.0),
                                                        other_object_positions=(1.0, 0.5), margins=(0.0, 1e-7), grid_margins=(0, 3))
+    if t == "poscons_private":     # a dataclass instance carrying a private attribute in __dict__ (dropped by the export)
+        o = build_value(["poscons", r[1], r[2]])
+        object.__setattr__(o, "_cache", 5)
+        return o
     if t == "null":
         return NULL
     if t == "set":
